@@ -9904,6 +9904,7 @@ bool SoPlexBase<R>::writeDualFileReal(const char* filename, const NameSet* rowNa
    SPxLPBase<R> dualLP;
    _realLP->buildDualProblem(dualLP);
    dualLP.setOutstream(spxout);
+   dualLP.setTolerances(_tolerances);
 
    // swap colnames and rownames
    dualLP.writeFileLPBase(filename, colNames, rowNames, nullptr, writeZeroObjective);
